@@ -46,6 +46,7 @@ def comp_classes(core):
         import ECAgent.Environments as envs_
         # a user component that extends the library's PositionComponent (e.g. 'Home'): an ordinary user component for the listings
         _comp_classes[4] = type('K4Home', (envs_.PositionComponent,), {'__slots__': ()})
+        _comp_classes[0] = type('K0derivedFromK1', (_comp_classes[1],), {'__slots__': ()})   # subclass relation between user components
         _comp_classes.append(type('Nobody', (core.Component,), {'__slots__': ()}))
     return _comp_classes
 
